@@ -179,7 +179,7 @@ def build_sampled(c, cls=None):
 import math  # noqa: E402
 
 UNITS = ["kpc", "Mpc", "rad", "deg", "arcmin", "arcsec", "kpc/h", "Mpc/h"]
-COSMOLOGIES = ["Planck15", "Planck15", "WMAP9", "custom"]
+COSMOLOGIES = ["Planck15", "Planck15", "WMAP9", "custom", "curved"]
 
 
 def loguniform(lo, hi):
@@ -354,6 +354,16 @@ def scene_case(draw, theta_max, edges, ncat, *, min_patches=1, max_patches=5, ma
                 xs.append([cxy[p, 0] + e * ux, cxy[p, 1] + e * uy])
             if draw(st.sampled_from([False, False, True])) and n >= 2:
                 xs.append(list(xs[-1]))  # exact duplicate position
+            if K >= 2 and draw(st.integers(0, 3)) == 0:
+                # an object very close to (but measurably off) the line equidistant from this and another centre
+                q = draw(st.integers(0, K - 1))
+                if q != p:
+                    mid = 0.5 * (cxy[p] + cxy[q])
+                    direction = (cxy[p] - cxy[q]) / max(np.linalg.norm(cxy[p] - cxy[q]), 1e-30)
+                    perp = np.array([-direction[1], direction[0]])
+                    off = draw(st.sampled_from([1e-9, 3e-9, 1e-8, 1e-7, 1e-6])) * draw(st.sampled_from([1.0, -1.0]))
+                    along = draw(floats(-0.3, 0.3)) * spacing
+                    xs.append((mid + off * direction + along * perp).tolist())
         ra, dec = tangent_to_sky(base, np.array(xs))
         n = len(ra)
         cat = {"ra": ra.tolist(), "dec": dec.tolist(), "w": None, "z": None}
@@ -362,5 +372,7 @@ def scene_case(draw, theta_max, edges, ncat, *, min_patches=1, max_patches=5, ma
             cat["w"] = draw(st.lists(st.one_of(floats(0.1, 5.0), st.sampled_from([1.0, 2.0, 0.5])), min_size=n, max_size=n))
         if c in need_z or draw(st.booleans()):
             cat["z"] = draw(redshift_values(n, edges))
+        if draw(st.integers(0, 7)) == 0:
+            cat["stale_pid"] = draw(st.lists(st.integers(0, K - 1), min_size=n, max_size=n))
         cats.append(cat)
     return {"base": [float(base[0]), float(base[1])], "spacing": float(spacing), "centers": np.column_stack([cra, cdec]).tolist(), "cats": cats}
